@@ -5,7 +5,8 @@ TLC (RepoTrace.tla)."""
 import json, os, re
 from .common import CheckError, read_ndjson, load_json, write_ndjson, NCPU
 
-SHAPES = {"chain": "Chain", "star": "Star", "two": "Two"}
+SHAPES = {"chain": "Chain", "star": "Star", "two": "Two", "deep": "Deep"}
+ENTS = {"deep": '{"r", "s", "m", "l"}'}          # the other shapes have the three entities r, s, l
 
 # which clause of RepoTrace.tla belongs to which property
 CLAUSES = {
@@ -31,7 +32,7 @@ def model_check(ctx, shape, max_env, flagsets="CoreFlagSets", env="AllEnv", faul
     alt = alt or ("%sAlt" % SHAPES[shape] if env in ("IssuerEnv", "FullEnv", "ConfigEnv", "EverythingEnv") else "NoAlt")
     name = "MCRepo_%s_%d_%s_%s.cfg" % (shape, max_env, flagsets, env)
     with open(os.path.join(d, name), "w") as f:
-        f.write('CONSTANTS\n  Ents = {"r", "s", "l"}\n  Parent <- %sParent\n  AltParents <- %s\n  Contents = %s\n  FlagSets <- %s\n'
+        f.write('CONSTANTS\n  Ents = ' + ENTS.get(shape, '{"r", "s", "l"}') + '\n  Parent <- %sParent\n  AltParents <- %s\n  Contents = %s\n  FlagSets <- %s\n'
                 '  EnvActs <- %s\n  FaultActs <- %s\n  UsesProfile <- %s\n  MaxEnv = %d\nINIT Init\nNEXT Next\n' % (SHAPES[shape], alt, contents, flagsets, env, faults, profile, max_env))
         f.write("INVARIANTS %s\n" % " ".join(inv))
         if props:
